@@ -120,6 +120,32 @@ theorem reads_tuple {g : Guards} {s : Schema} {c : Cls} (es : List (String × Cl
   obtain ⟨k, rfl⟩ : ∃ k, fuel = k + 1 := ⟨fuel - 1, by omega⟩
   simp only [fromBytes, hty, leafFrom, deser_enc _ hw hn, hf k (by omega), bind, Except.bind, pure, Except.pure]
 
+/-- … followed by a repeating member (`name*`) that occurs zero times (an authentication wrapper without signature blocks) -/
+theorem fromTuple_reads_star {g : Guards} {s : Schema} (es : List (String × Cls)) (vals : List Node) (kstar : String) (cstar : Cls)
+    (hstar : kstar.endsWith "*" = true) (h : Fields g s es vals) :
+    ∃ f0, ∀ fuel, f0 ≤ fuel → fromTuple g s fuel (es ++ [(kstar, cstar)]) (valList vals) = .ok vals := by
+  induction h with
+  | nil => exact ⟨2, fun fuel hf => by
+      obtain ⟨k, rfl⟩ : ∃ k, fuel = k + 2 := ⟨fuel - 2, by omega⟩
+      simp [valList, fromTuple, fromStar, hstar, bind, Except.bind, pure, Except.pure]⟩
+  | cons hk hr _ ih =>
+    obtain ⟨f1, h1⟩ := hr
+    obtain ⟨f2, h2⟩ := ih
+    refine ⟨max f1 f2 + 1, fun fuel hf => ?_⟩
+    obtain ⟨k, rfl⟩ : ∃ k, fuel = k + 1 := ⟨fuel - 1, by omega⟩
+    simp only [List.cons_append, valList, fromTuple, hk, Bool.false_eq_true, if_false, h1 k (by omega), h2 k (by omega), bind,
+      Except.bind, pure, Except.pure]
+
+theorem reads_tuple_star {g : Guards} {s : Schema} {c : Cls} (es : List (String × Cls)) (vals : List Node) (kstar : String)
+    (cstar : Cls) (hty : s.ty c = some (.tupleNamed (es ++ [(kstar, cstar)]))) (hstar : kstar.endsWith "*" = true)
+    (hw : (Cbor.arr (valList vals)).wf = true) (hn : norm (.arr (valList vals)) = some (.arr (valList vals)))
+    (h : Fields g s es vals) :
+    Reads g s c (enc (.arr (valList vals))) (.tuple ((es ++ [(kstar, cstar)]).map (·.1)) vals) := by
+  obtain ⟨f0, hf⟩ := fromTuple_reads_star es vals kstar cstar hstar h
+  refine ⟨f0 + 1, fun fuel hfuel => ?_⟩
+  obtain ⟨k, rfl⟩ : ∃ k, fuel = k + 1 := ⟨fuel - 1, by omega⟩
+  simp only [fromBytes, hty, leafFrom, deser_enc _ hw hn, hf k (by omega), bind, Except.bind, pure, Except.pure]
+
 /-- trial decoding: the alternative that built the node is the first one that accepts its bytes -/
 def Rejects (g : Guards) (s : Schema) (c : Cls) (b : Bytes) : Prop :=
   ∃ f0, ∀ fuel, f0 ≤ fuel → fromBytes g s fuel c b = .error .valueError
